@@ -468,16 +468,26 @@ Definition lookup_join (left_outer : bool) (L R : side) : list (row * option row
   flat_map (fun l => emit left_outer l (filter (jf l) (lookup (fst l) R))) L.
 
 (* ------------------------------------------------------------------ *)
-(* (c) countAggKvIter: COUNT( * ) / COUNT(literal) counts every tuple; COUNT(col) skips the tuples whose field |idx| is
-   NULL, where idx is the column's position among the key columns (key reference) or among the non-key columns.
-   For a keyless table the value tuple is (cardinality, columns...) and newCountAggregationKvIter does not shift idx
-   past the cardinality field (lookup_join.go and merge_join.go do): COUNT(first column) tests the cardinality, which
-   is never NULL, and COUNT(n-th column) tests the (n-1)-th column. *)
-Definition count_field (keyless : bool) (c : nat) (r : row) : cell :=
-  if keyless then nth c (Some 1 :: r) None else nth c r None.
+(* (c) newCountAggregationKvIter / countAggKvIter: COUNT( * ) / COUNT(literal) counts every tuple; COUNT(col) skips the
+   tuples whose field |idx| is NULL, where idx is the column's position among the key columns (key reference) or among
+   the non-key columns.  Keyless schemas are declined (schema.IsKeyless(sch) => (nil, false, nil), repair d707d55: their
+   value tuple is (cardinality, columns...) and one stored entry stands for cardinality rows), so the Builder falls back
+   to the row executor. *)
+Definition count_fast_path (keyless : bool) (col : option nat) (rows : list row) : option Z :=
+  if keyless then None
+  else Some match col with
+            | None => Z.of_nat (length rows)
+            | Some c => Z.of_nat (length (filter (fun r => negb (is_none (nth c r None))) rows))
+            end.
 
-Definition count_fast_path (keyless : bool) (col : option nat) (rows : list row) : Z :=
+(* the row executor's COUNT over the table scan; |rows| lists a keyless table's rows with their multiplicities, as
+   the keyless row iterator emits them *)
+Definition count_rows (col : option nat) (rows : list row) : Z :=
   match col with
   | None => Z.of_nat (length rows)
-  | Some c => Z.of_nat (length (filter (fun r => negb (is_none (count_field keyless c r))) rows))
+  | Some c => Z.of_nat (length (filter (fun r => negb (is_none (nth c r None))) rows))
   end.
+
+(* kvexec.Builder.Build for GroupBy(COUNT): the fast path when it applies, else the row executor *)
+Definition count_answer (keyless : bool) (col : option nat) (rows : list row) : Z :=
+  match count_fast_path keyless col rows with Some n => n | None => count_rows col rows end.
